@@ -32,11 +32,9 @@ import random as _random
 
 from hypothesis import strategies as st
 
-import nfc.clf
-
 from vlib import deppair as dp
 from vlib import vsched
-from vlib.engine import HarnessError, Leg, Violation, derive_seed, unexpected
+from vlib.engine import Leg, Violation, derive_seed, unexpected
 
 PROPERTY = "C04"
 LEVEL = "fault_enumeration"
